@@ -143,7 +143,7 @@ PROPS = {
     },
     "C05": {
         "lean_modules": ["Cachelito.Props.C05", "Cachelito.Props.C05a"],
-        "streams": [core_stream(nontrivial=["memory-store"], what="L1 restricted to nothing: all flavours/policies, memory-aware stores with sizes around max_memory"),
+        "streams": [core_stream(filters=[[], ["shape=crowd"]], quick=1600, thorough=30000, nontrivial=["memory-store"], what="L1 restricted to nothing: all flavours/policies, memory-aware stores with sizes around max_memory; half of the episodes in the 'crowd' shape (a bound that holds five to eight small residents, large newcomers that displace several of them in one store)"),
                     lines_stream("mem_diff", "mem", ["{seed}", "{n}"], 60, 600,
                                  "estimator: random values of 85 Rust types (String/Vec with chosen capacities, nested Option/Result/tuple/Box/Arc/Rc, CacheEntry) through the REAL estimate_memory() vs MemEst.estimate; independent footprint walk", r"\|"),
                     sched_stream(nontrivial=['quiescent-cache-checked'], quick=(6, 8, 60), what="L3: scheduled runs on memory-bounded caches (memory-aware stores racing with each other and with invalidations): at quiescence the estimated total is within max_memory"), hammer_stream()],
@@ -177,7 +177,10 @@ PROPS = {
     },
     "C08": {
         "lean_modules": ["Cachelito.Props.C08"],
-        "streams": [core_stream(filters=[["policy=lfu"], ["policy=arc"], ["policy=tlru"]], nontrivial=["eviction"], quick=1200, thorough=24000)],
+        "streams": [core_stream(filters=[["policy=lfu"], ["policy=arc"], ["policy=tlru"], ["policy=lfu", "shape=crowd"],
+                                            ["policy=arc", "shape=crowd"], ["policy=tlru", "shape=crowd"],
+                                            ["policy=arc", "shape=crowd", "flavour=async"], ["policy=tlru", "shape=crowd", "flavour=async"]],
+                                   nontrivial=["eviction"], quick=4800, thorough=48000)],
         "monitors": ["C08"],
         "rule": "LFU / ARC / TLRU episodes on all three engines, limits 1..4, ttl none/1..3, frequency_weight none/0.1/0.3/1/1.5/3, entry and memory pressure; non-trivial = a store that evicted; the driver mirrors the f64 score exactly",
         "level_text": "Lean theorems: the victim scan returns the FIRST minimiser of the policy's score among stored queue keys for any strict-weak-order comparison (LFU: hits; ARC: hits x rank; TLRU: any scorer), every eviction of a store (limit step and memory loop) is such a victim; LFU victims have the fewest successful lookups (hit counters equal the history's count); async ARC/TLRU: among equally popular entries the least recently used goes first; sync engines: the victim is the first entry with a zero factor, so weight form and rank orientation are unobservable there; TLRU without ttl and weight coincides with ARC on every history.",
